@@ -266,7 +266,11 @@ def run_checks(root):
             if v:
                 fired[p] = v
         except AnalysisError as e:
-            errors[p] = str(e)[:120]
+            v = sorted(set(o["rule"] for o in run.obligations if o["status"] == "violation"))
+            if v:
+                fired[p] = v       # check.py reports a violation established before the analysis stopped
+            else:
+                errors[p] = str(e)[:120]
         except Exception as e:
             errors[p] = "internal %s: %s" % (type(e).__name__, str(e)[:100])
     return fired, errors
@@ -281,7 +285,9 @@ def work(job):
             f.write(new_src)
         fired, errors = run_checks(tmp)
         tests = None
-        if do_tests:
+        if isinstance(do_tests, str):
+            tests = do_tests
+        elif do_tests:
             p = subprocess.run(["/venv/bin/python", "-m", "pytest", "-q", "-x", "-p", "no:cacheprovider", "--timeout=120",
                                 "--deselect", "asynq/tests/test_pyright.py", "-q"], cwd=tmp, stdout=subprocess.PIPE, stderr=subprocess.STDOUT, timeout=600)
             tail = p.stdout.decode("utf-8", "replace").strip().split("\n")[-1]
@@ -299,6 +305,7 @@ def main():
     limit = None
     jobs = 14
     do_tests = True
+    reuse = None
     while args:
         a = args.pop(0)
         if a == "--modules":
@@ -309,6 +316,11 @@ def main():
             jobs = int(args.pop(0))
         elif a == "--no-tests":
             do_tests = False
+        elif a == "--reuse":
+            reuse = {}
+            for l in open(args.pop(0)):
+                r = json.loads(l)
+                reuse[(r["id"], r["module"], r["line"], r["op"], r["desc"])] = r["tests"]
     os.makedirs(OUT, exist_ok=True)
     shutil.rmtree(os.path.join(OUT, "template"), ignore_errors=True)
     os.makedirs(os.path.join(OUT, "template"))
@@ -316,14 +328,18 @@ def main():
     work_items = []
     for m in mods:
         for mut, new in gen_mutants(m):
-            work_items.append((len(work_items), mut, new, do_tests))
+            if reuse is not None:
+                k = (len(work_items), mut.module, mut.lineno, mut.op, mut.desc)
+                work_items.append((len(work_items), mut, new, reuse.get(k, True)))
+            else:
+                work_items.append((len(work_items), mut, new, do_tests))
     if limit:
         import random
         random.Random(int(os.environ.get("VERIF_SEED", "1"))).shuffle(work_items)
         work_items = work_items[:limit]
     print("mutants:", len(work_items), flush=True)
     t0 = time.time()
-    with Pool(jobs) as pool, open(os.path.join(OUT, "results.jsonl"), "w") as out:
+    with Pool(jobs) as pool, open(os.path.join(OUT, "results.jsonl" if reuse is None else "results2.jsonl"), "w") as out:
         for i, r in enumerate(pool.imap_unordered(work, work_items)):
             out.write(json.dumps(r) + "\n")
             out.flush()
